@@ -10,7 +10,10 @@ rc = KaniUnit("c02_rc", CORE, modules=[dict(file=COST, src="c07_cost.rs")],
                               attrs=["#[cfg_attr(kani, kani::requires(verif_c07_cost::esp_pre(&cost)))]", "#[cfg_attr(kani, kani::ensures(|r: &Cost| verif_c07_cost::enn_post(&cost, r)))]"])],
               harnesses=[H("c02_reverse_cost_order", "complete", "ReverseCost::from reverses the order of Cost for all non-NaN f64 (the priority queue is min-cost-first)", timeout=120),
                          H("c07_enn_contract", "complete", "the estimate clip: enforce_non_negative r >= 0 (heuristic term never negative)", timeout=120)])
-al = VerusUnit("al_astar", "al_astar", rlimit=60)
+lw = KaniUnit("c02_least_wit", CORE, modules=[dict(file=CORE + "/src/algorithm/search/search_instance.rs", src="world.rs"),
+                                              dict(file=CORE + "/src/algorithm/search/search_algorithm.rs", src="c01_wit.rs")], harnesses=[])
+lw.native_witnesses = ["c02_wit_tree_labels_are_least_costs"]
+al = VerusUnit("al_astar", "al_astar", rlimit=60, paired_kani=(lw, []))
 cm = VerusUnit("c07_costmodel", "c07_costmodel", rlimit=30)
 sp = VerusUnit("c02_speed", "c02_speed", rlimit=30)
 cw = KaniUnit("c02_cost_service_wit", "routee-compass", modules=[dict(file="routee-compass/src/app/compass/config/cost_model/cost_model_service.rs", src="c02_cost_service_wit.rs")], harnesses=[])
@@ -22,8 +25,13 @@ rt = VerusUnit("c07_rate", "c07_rate", rlimit=30, paired_kani=(rw, []))
 eo = VerusUnit("c01_edge_oriented", "c01_edge_oriented", rlimit=60, clauses=r"callers\.[01]")
 hw = KaniUnit("c16_haversine_wit", "routee-compass-core", modules=[dict(file="routee-compass-core/src/util/geo/haversine.rs", src="c16_haversine_wit.rs")], harnesses=[])
 hw.native_witnesses = ["c16_wit_great_circle_distance_agrees_with_an_independent_formula"]
-UNITS = [al, cm, sp, rc, cb, rt, eo, cw, rw, hw]
-EXPLANATION = ("NOT optimality. Decided: the relaxation mechanism of run_a_star as contracts on the verbatim driver (Verus): a label is replaced only by a strictly smaller cost-so-far equal to the near vertex' "
+UNITS = [al, cm, sp, rc, cb, rt, eo, cw, rw, hw, lw]
+EXPLANATION = ("Optimality is decided for ONE case only -- a search WITHOUT a destination (the tree of all reachable vertices), any network, any direction, edge costs that do not depend on how the edge was reached "
+               "(hypothesis cost_local: perform_edge_traversal charges ONE number per edge) and an edge-local frontier model: invariant BELL on the verbatim run_a_star (every incident edge of a vertex that was expanded and is "
+               "not waiting in the queue again is refused or relaxed: label(far) <= label(near) + cost) gives Bellman potentials at queue exhaustion (postcondition least_post), and three lemmas by induction "
+               "(lemma_label_le_path, lemma_chain_cost_le_label, lemma_tree_route_least) conclude that the cost accumulated along the chain of parent links the tree stores for a vertex is <= the cost of EVERY permitted path "
+               "from the source to it: the routes of the tree are least-cost routes.  For a search TOWARDS a destination (the loop stops when the destination is popped) least cost is NOT decided (it needs a consistent heuristic and the "
+               "settled-vertex argument); a native witness compares route costs with an all-pairs closure.  Also decided: the relaxation mechanism of run_a_star as contracts on the verbatim driver (Verus): a label is replaced only by a strictly smaller cost-so-far equal to the near vertex' "
                "label plus the edge's total cost; the vertex is re-queued with f = g + weighted estimate and its queue priority is never worse than that f (invariant Q: catches push_increase/push_decrease "
                "mix-ups and flipped comparisons); advance_search hands out a queued vertex of least f-score (assumed contract of the priority_queue crate + ReverseCost's order reversal, proved by Kani); "
                "the estimate is costed by cost_estimate (>= 0) on the traversal model's estimated state (SearchInstance::estimate_traversal_cost, Verus); "
@@ -35,6 +43,6 @@ EXPLANATION = ("NOT optimality. Decided: the relaxation mechanism of run_a_star 
                "the weights / vehicle rates / aggregation being the query's own where it carries them and the configured ones otherwise; an unreadable cost section is an error of that query, never a silent fallback; a weight for an unknown feature is refused unless told to ignore it; "
                "every vehicle rate (unit c07_rate, see C07): zero, the value, value x factor, value + offset, or -- combined -- the member rates applied ONE AFTER THE OTHER in order; "
                "run_a_star_edge_oriented (unit c01_edge_oriented) runs its inner searches in the caller's direction with the caller's WEIGHT FACTOR (Dijkstra is factor 0: dropping it would silently run A*) -- an obligation at every call site")
-NOT_DECIDED = ("least total cost itself (global Dijkstra/A* argument); admissibility of the great-circle heuristic (transcendental functions, premise about the network); "
+NOT_DECIDED = ("least total cost of a search TOWARDS a destination (settled-vertex argument under a consistent heuristic; only the destination-less tree search is proved least-cost); admissibility of the great-circle heuristic (transcendental functions, premise about the network); "
                "SearchAlgorithm dispatch beyond unit c01_dispatch (Dijkstra = weight factor 0, query override); parsing of the query's cost section (serde_json: a deterministic read per key and type); that the great-circle length is a lower bound of the network length (data premise)")
 ASSUMPTIONS = ["HashMap<String, V> as an abstract map from names to values; StateModel::indexed_iter yields (slot, name) in slot order (C11); Clone returns an equal value", "priority_queue crate: push/push_increase/pop semantics as stated in the shim", "A-REAL (costs as extended reals)"]
